@@ -322,6 +322,45 @@ def spec_m_corr(rep, rng, n):
     rep.extra.setdefault('correspondence', []).append(dict(label='upd_m spec', cases=len(items), in_class=len(items) - len(out), disagreements=len(bad), coq_wall_s=round(wall, 1)))
 
 
+def text_cases(rng, n):
+    """(a) a WHOLE DOCUMENT tagged !del: the result is exactly its content (the merge returns the NEWER root object - every caller must keep what
+    the merge returns), directly, followed by a further stage, and as the second document of an included file; (b) replacements that PROMOTE the
+    newer node's type (a !call / !path node onto an older plain mapping / list) while older content survives or entries are removed: both views of
+    the promoted container must agree with the merged content"""
+    out = [dict(text=True, stages=['{a: 1, b: {x: 1, y: 2}, l: [1, 2]}', '!del {c: 3, b: {z: 4}}'], expect={'c': 3, 'b': {'z': 4}}),
+           dict(text=True, stages=['{a: 1, b: 2}', '!del {c: 3}', '{d: 4}'], expect={'c': 3, 'd': 4}),
+           dict(text=True, stages=['{a: {k: 1}}', '{a: {j: 2}}', '!del {a: {m: 3}}'], expect={'a': {'m': 3}}),
+           dict(text=True, stages=['{d: {a: 1, b: 2}}', "{d: !call:vmod.f{{'delete': False}} {b: !del , c: 3}}"], expect={'d': {'a': 1, 'c': 3}}),
+           dict(text=True, stages=['{l: [x, y, z]}', "{l: !path:cwd{{'delete': False}} [q]}"], expect={'l': ['q', 'y', 'z']}),
+           dict(text=True, stages=['{l: [a, b, !force c]}', '{l: !path [x, y]}'], expect={'l': ['c', 'y']}),
+           dict(text=True, stages=['{d: {a: 1, b: !force 2}}', '{d: !bind:vmod.f {c: 3}}'], expect={'d': {'b': 2, 'c': 3}})]
+    for _ in range(n):
+        b = gen.gen_doc(rng, PLAIN, root_tag_ok=False)
+        d = gen.gen_doc(rng, PLAIN, root_tag_ok=False)
+        if not d[2]:
+            continue
+        out.append(dict(text=True, stages=[gen.render(b), gen.render(('map', '!del', d[2]))], expect=oracles.doc_plain(d)))
+    return out
+
+
+def judge_text(case):
+    from .. import ser, evalcorr
+    evalcorr.install_vmod()
+    kind, root = oracles.build(case['stages'])
+    if kind != 'ok':
+        return dict(case=case, reason='the build failed', got=kind, message=str(root)[:200])
+    try:
+        ser.node_term(root, ser.Interner())
+    except ser.Inconsistent as e:
+        return dict(case=case, reason='after the merge the two stores of a container disagree (stale entries of a promoted node)', detail=str(e)[:200])
+    except ValueError:
+        pass
+    got = base.to_plain(root)
+    if unordered(got) != unordered(case['expect']):
+        return dict(case=case, reason='the merged content is not exactly what the deleting / promoted node prescribes', got=repr(got)[:300])
+    return None
+
+
 def run(rep, tier, rng):
     rep.rule = ('(a) merge histories over !del/!merge/priority tags (correspondence); (b) structured scenarios: a deleting node (mapping tagged !del, or a list) placed at a random '
                 'existing path of a random base document incl. below list indices and with key names reused from ancestors; protected !force entries; !merge lists; value-less !del; !clear. '
@@ -341,12 +380,18 @@ def run(rep, tier, rng):
         rep.count('scenario ' + c['kind'])
         old = oracles.lookup(oracles.doc_plain(c['base']), tuple(c['path']))
         rep.case(gen.render(c['base']) + '\n' + gen.render(c['newer']), old not in ({}, [], KeyError), sample=dict(kind=c['kind'], base=gen.render(c['base']), newer=gen.render(c['newer'])))
+    base.run_oracle(rep, 'C04', 'whole documents tagged !del; replacements that promote the node type', text_cases(rng, 40 if tier == 'quick' else 600), judge_text)
     base.run_oracle(rep, 'C04', 'exact replacement / protection / !merge / remove-key / !clear scenarios', scen, judge, in_domain=in_domain, known_sig=known_sig,
                     show=lambda c: dict(kind=c['kind'], base=gen.render(c['base']), newer=gen.render(c['newer']), path=c['path'], case=c))
 
 
 def replay(data):
     r = data['replay']
+    x0 = r.get('input')
+    if isinstance(x0, dict) and (x0.get('text') or (isinstance(x0.get('case'), dict) and x0['case'].get('text'))):
+        f = judge_text(x0.get('case', x0))
+        print('replay:', 'property FAILS' if f else 'property holds', f or '')
+        return 1 if f else 0
     if 'input' in r and 'case' in r['input']:
         def tup(x):
             if isinstance(x, list) and len(x) == 3 and x[0] in ('map', 'seq', 'sc'):
